@@ -5,7 +5,9 @@
 //! A panic of the code under test is data (`"panic"` outcome), never a harness failure.
 
 mod chars;
+mod domreplay;
 mod util;
+mod world;
 
 use std::env;
 use std::process::exit;
@@ -23,6 +25,7 @@ fn main() {
     let code = match args[1].as_str() {
         "classes" => chars::classes(rest),
         "names" => chars::names(rest),
+        "replay-dom" => domreplay::replay(rest),
         other => {
             eprintln!("unknown subcommand {}", other);
             2
